@@ -66,21 +66,27 @@ func ruleC03R1(r *Run) {
 					if !isEx || ex.Index != 1 {
 						continue
 					}
-					allInstrs(fn, func(x ssa.Instruction) {
-						ifs, isIf := x.(*ssa.If)
-						if !isIf || !sameValue(ifs.Cond, ex) {
-							return
-						}
-						// not-found successor returns nil chunk and non-nil error
+					// the tests of the ok value: here, or — when a lookup helper hands value and ok straight back — at
+					// every call site of the helper
+					tests, complete := p.testsOf(fn, ex, 0)
+					good := len(tests) > 0 && complete
+					for _, ifs := range tests {
+						found := false
 						for _, y := range ifs.Block().Succs[1].Instrs {
 							if ret, isRet := y.(*ssa.Return); isRet {
 								rs := retResults(ret)
 								if len(rs) == 2 && isNilConst(rs[0]) && !isNilConst(rs[1]) {
-									okChk = true
+									found = true
 								}
 							}
 						}
-					})
+						if !found {
+							good = false
+						}
+					}
+					if good {
+						okChk = true
+					}
 				}
 			}
 			r.Check(fmt.Sprintf("%s lookup#%d %s", name, n, src[strings.LastIndexByte(src, '.')+1:]), okChk, p.pos(lk.Pos()), name, "lookup in "+src+" must be comma-ok with the not-found edge returning an error (an alias the client never announced must not be resolved to a zero or stale value)")
@@ -300,7 +306,7 @@ func ruleC03R4(r *Run) {
 				srcs := map[string]bool{}
 				for _, ref := range *a.Referrers() {
 					if st, isSt := ref.(*ssa.Store); isSt && st.Addr == ssa.Value(a) {
-						for _, x := range p.Leaves(st.Val, provOpts{}) {
+						for _, x := range p.Leaves(st.Val, provOpts{IntoCallees: true}) {
 							srcs[x] = true
 						}
 					}
